@@ -8,6 +8,7 @@ CONSTANTS
   MaxCrashes = 3
   Coarse = FALSE
   StatByName = FALSE
+  StampFirst = FALSE
   KnownCauses = {"parse_edit_store","copy_window"}
 CHECK_DEADLOCK FALSE
 INVARIANT TypeOK
